@@ -549,9 +549,20 @@ func cmdCheck(args []string) int {
 			cmd.Stderr = &eb
 			err := cmd.Run()
 			ee, ok := err.(*exec.ExitError)
-			return ok && ee.ExitCode() == 66 && raceClass(eb.String()) == class
+			// any race report reproduces the finding: which of two racing accesses
+			// the detector names first (and so the class) may differ between two
+			// reports of one and the same race
+			return ok && ee.ExitCode() == 66 && strings.Contains(eb.String(), "DATA RACE")
 		}
-		if !raceReplay(plain.Choices) || !raceReplay(plain.Choices) {
+		// the detector keeps a bounded, randomly evicted history per memory word:
+		// whether a given racing pair is still visible when the second access
+		// happens varies between executions of one and the same schedule, so one
+		// reproduction in four replays is asked for, not two in two
+		reproduced := false
+		for try := 0; try < 4 && !reproduced; try++ {
+			reproduced = raceReplay(plain.Choices)
+		}
+		if !reproduced {
 			fmt.Fprintf(os.Stderr, "harness trouble: data race %s of run %d does not reproduce from its choice list in a fresh process\n", class, rf.Idx)
 			fmt.Fprintln(os.Stderr, trimReport(rf.Report))
 			raceTrouble = true
